@@ -136,3 +136,114 @@ MUTANTS += [
     {"id": "C05-facemodify-chunks-not-cleared", "prop": "C05", "expect": "SCRATCH-RESET",
      "edits": [(E, "            FaceModify(face_modify) => {\n                self.chunks.clear();\n", "            FaceModify(face_modify) => {\n")]},
 ]
+
+# ---------------- behaviour-preserving refactorings the rules must stay silent on (robustness) ----------------
+_NEAREST = "fn nearest(v: f32, vs: &[f32]) -> usize {"
+_TITLE_LOOP = "                for c in title.chars().filter(|c| !c.is_control()) {\n                    write!(out, \"{}\", c)?;\n                }\n"
+MUTANTS += [
+    # named constant for a literal
+    {"id": "C05-benign-csi-named-const", "prop": "C05", "benign": True,
+     "edits": [(E, _NEAREST, "const CSI: &[u8] = b\"\\x1b[\";\nconst ST: &str = \"\\x1b\\\\\";\n\n" + _NEAREST),
+               (E, "                out.write_all(b\"\\x1b[\")?;\n                self.chunks.drain(b\";\", &mut out)?;\n                out.write_all(b\"m\")?;\n            }\n            FaceModify",
+                "                out.write_all(CSI)?;\n                self.chunks.drain(b\";\", &mut out)?;\n                out.write_all(b\"m\")?;\n            }\n            FaceModify"),
+               (E, "                    None => write!(out, \"?\")?,\n                }\n                write!(out, \"\\x1b\\\\\")?;", "                    None => write!(out, \"?\")?,\n                }\n                write!(out, \"{}\", ST)?;")]},
+    # loop <-> iterator chain
+    {"id": "C05-benign-termcap-try-for-each", "prop": "C05", "benign": True,
+     "edits": [(E, "                    for b in cap.as_bytes() {\n                        write!(out, \"{:02x}\", b)?;\n                    }\n",
+                "                    cap.as_bytes().iter().try_for_each(|b| write!(out, \"{:02x}\", b))?;\n")]},
+    {"id": "C05-benign-title-try-for-each", "prop": "C05", "benign": True,
+     "edits": [(E, _TITLE_LOOP, "                title.chars().filter(|c| !c.is_control()).try_for_each(|c| write!(out, \"{}\", c))?;\n")]},
+    # helper extracted as a free function
+    {"id": "C05-benign-free-helper", "prop": "C05", "benign": True,
+     "edits": [(E, _NEAREST, "fn write_st<W: Write>(mut out: W) -> Result<(), Error> {\n    out.write_all(b\"\\x1b\\\\\")?;\n    Ok(())\n}\n\n" + _NEAREST),
+               (E, _TITLE_LOOP + "                out.write_all(b\"\\x1b\\\\\")?;", _TITLE_LOOP + "                write_st(&mut out)?;")]},
+    # exact fast path (title without control characters written whole), in its spellings
+    {"id": "C05-benign-title-fast-path-any", "prop": "C05", "benign": True,
+     "edits": [(E, _TITLE_LOOP, "                if !title.chars().any(|c| c.is_control()) {\n                    out.write_all(title.as_bytes())?;\n                } else {\n    " + _TITLE_LOOP.replace("\n    ", "\n        ").rstrip(" ") + "                }\n")]},
+    {"id": "C05-benign-title-fast-path-all", "prop": "C05", "benign": True,
+     "edits": [(E, _TITLE_LOOP, "                if title.chars().all(|c| !c.is_control()) {\n                    write!(out, \"{}\", title)?;\n                } else {\n    " + _TITLE_LOOP.replace("\n    ", "\n        ").rstrip(" ") + "                }\n")]},
+    # ... but a fast path guarded by the wrong test is not
+    {"id": "C05-title-fast-path-wrong-guard", "prop": "C05", "expect": "STRING-PAYLOAD/Title/unescaped-string-in-OSC",
+     "edits": [(E, _TITLE_LOOP, "                if !title.chars().any(|c| c == '\\x07') {\n                    out.write_all(title.as_bytes())?;\n                } else {\n    " + _TITLE_LOOP.replace("\n    ", "\n        ").rstrip(" ") + "                }\n")]},
+    {"id": "C05-title-fast-path-inverted", "prop": "C05", "expect": "STRING-PAYLOAD/Title/unescaped-string-in-OSC",
+     "edits": [(E, _TITLE_LOOP, "                if title.chars().any(char::is_control) {\n                    out.write_all(title.as_bytes())?;\n                } else {\n    " + _TITLE_LOOP.replace("\n    ", "\n        ").rstrip(" ") + "                }\n")]},
+    # if/else <-> match, debug_assert! of something that holds, hoisted local
+    {"id": "C05-benign-match-on-bool", "prop": "C05", "benign": True,
+     "edits": [(E, 'let flag = if enable { "h" } else { "l" };', 'let flag = match enable {\n                    true => "h",\n                    false => "l",\n                };')]},
+    {"id": "C05-benign-debug-assert-in-arm", "prop": "C05", "benign": True,
+     "edits": [(E, "            ScrollRegion { start, end } => {\n                if end > start {", "            ScrollRegion { start, end } => {\n                debug_assert!(start <= end || end == 0 || start > end);\n                let region = end > start;\n                if region {")]},
+    # scratch buffer reset / flush through extracted helpers
+    {"id": "C05-benign-sgr-begin-flush-helpers", "prop": "C05", "benign": True,
+     "edits": [(E, "    fn kitty_level<W: Write>(&self, mut out: W, level: usize) -> Result<(), Error> {",
+                "    fn sgr_begin(&mut self) {\n        self.chunks.clear();\n    }\n\n    fn sgr_flush<W: Write>(&mut self, mut out: W) -> Result<(), Error> {\n        out.write_all(b\"\\x1b[\")?;\n        self.chunks.drain(b\";\", &mut out)?;\n        out.write_all(b\"m\")?;\n        Ok(())\n    }\n\n    fn kitty_level<W: Write>(&self, mut out: W, level: usize) -> Result<(), Error> {"),
+               (E, "            Face(face) => {\n                self.chunks.clear();\n", "            Face(face) => {\n                self.sgr_begin();\n"),
+               (E, "                out.write_all(b\"\\x1b[\")?;\n                self.chunks.drain(b\";\", &mut out)?;\n                out.write_all(b\"m\")?;\n            }\n            FaceModify(face_modify) => {\n                self.chunks.clear();\n",
+                "                self.sgr_flush(&mut out)?;\n            }\n            FaceModify(face_modify) => {\n                self.sgr_begin();\n")]},
+    # helper between color_sgr_encode and nearest
+    {"id": "C05-benign-cube-index-helper", "prop": "C05", "benign": True,
+     "edits": [(E, _NEAREST, "fn cube_index(v: f32) -> usize {\n    nearest(v, CUBE)\n}\n\n" + _NEAREST),
+               (E, "            let c_red = nearest(r, CUBE);\n            let c_green = nearest(g, CUBE);\n            let c_blue = nearest(b, CUBE);",
+                "            let c_red = cube_index(r);\n            let c_green = cube_index(g);\n            let c_blue = cube_index(b);")]},
+    # debug_assert! with a closure (precondition of the binary search) and a pre-sized scratch buffer
+    {"id": "C05-benign-debug-assert-closure", "prop": "C05", "benign": True,
+     "edits": [(E, _NEAREST, _NEAREST + "\n    debug_assert!(vs.windows(2).all(|pair| pair[0] < pair[1]));")]},
+]
+
+MUTANTS += [
+    # Chunks::iter: the walk over the offsets, decided on canonical terms
+    {"id": "C05-chunks-iter-start-past-end", "prop": "C05", "expect": "CHUNKS-INV",
+     "edits": [(E, "            start = end;\n            index += 1;\n", "            start = end + 1;\n            index += 1;\n")]},
+    {"id": "C05-benign-chunks-iter-reordered", "prop": "C05", "benign": True,
+     "edits": [(E, "            let end = self.offsets[index];\n            let chunk = &self.buffer[start..end];\n            start = end;\n            index += 1;\n            Some(chunk)",
+                "            let stop = self.offsets[index];\n            index += 1;\n            let piece = &self.buffer[start..stop];\n            start = stop;\n            Some(piece)")]},
+]
+
+_DRAIN_LOOP = "        for (index, chunk) in self.iter().enumerate() {\n            if index != 0 {\n                out.write_all(sep)?;\n            }\n            out.write_all(chunk)?\n        }\n"
+MUTANTS += [
+    # separator idiom with a `first` flag instead of enumerate()
+    {"id": "C05-benign-drain-first-flag", "prop": "C05", "benign": True,
+     "edits": [(E, _DRAIN_LOOP, "        let mut first = true;\n        for chunk in self.iter() {\n            if !first {\n                out.write_all(sep)?;\n            }\n            first = false;\n            out.write_all(chunk)?\n        }\n")]},
+    {"id": "C05-benign-drain-first-flag-else", "prop": "C05", "benign": True,
+     "edits": [(E, _DRAIN_LOOP, "        let mut first = true;\n        for chunk in self.iter() {\n            if first {\n                first = false;\n            } else {\n                out.write_all(sep)?;\n            }\n            out.write_all(chunk)?\n        }\n")]},
+    {"id": "C05-drain-first-flag-never-cleared", "prop": "C05", "expect": "TEMPLATE/Face",
+     "edits": [(E, _DRAIN_LOOP, "        let first = true;\n        for chunk in self.iter() {\n            if !first {\n                out.write_all(sep)?;\n            }\n            out.write_all(chunk)?\n        }\n")]},
+    {"id": "C05-drain-first-flag-inverted", "prop": "C05", "expect": "TEMPLATE/Face",
+     "edits": [(E, _DRAIN_LOOP, "        let mut first = true;\n        for chunk in self.iter() {\n            if first {\n                out.write_all(sep)?;\n            }\n            first = false;\n            out.write_all(chunk)?\n        }\n")]},
+]
+
+MUTANTS += [
+    # `==` on an enum value <-> matches!; operands of && swapped; arm body extracted into a method; pattern destructuring
+    {"id": "C05-benign-matches-for-eq", "prop": "C05", "benign": True,
+     "edits": [(E, "                if !enable && mode == DecMode::AltScreen {", "                if matches!(mode, DecMode::AltScreen) && !enable {"),
+               (E, "                if enable && mode == DecMode::AltScreen {", "                if DecMode::AltScreen == mode && enable {")]},
+    {"id": "C05-benign-title-arm-method", "prop": "C05", "benign": True,
+     "edits": [(E, "    fn kitty_level<W: Write>(&self, mut out: W, level: usize) -> Result<(), Error> {",
+                "    fn encode_title<W: Write>(&self, mut out: W, text: &str) -> Result<(), Error> {\n        out.write_all(b\"\\x1b]0;\")?;\n        for ch in text.chars().filter(|ch| !ch.is_control()) {\n            write!(out, \"{}\", ch)?;\n        }\n        out.write_all(b\"\\x1b\\\\\")?;\n        Ok(())\n    }\n\n    fn kitty_level<W: Write>(&self, mut out: W, level: usize) -> Result<(), Error> {"),
+               (E, "                out.write_all(b\"\\x1b]0;\")?;\n                // control characters (BEL, ESC, ...) would terminate or corrupt the OSC string\n" + _TITLE_LOOP + "                out.write_all(b\"\\x1b\\\\\")?;\n",
+                "                self.encode_title(out, &title)?;\n")]},
+    {"id": "C05-title-arm-method-unfiltered", "prop": "C05", "expect": "STRING-PAYLOAD/Title/unescaped-string-in-OSC",
+     "edits": [(E, "    fn kitty_level<W: Write>(&self, mut out: W, level: usize) -> Result<(), Error> {",
+                "    fn encode_title<W: Write>(&self, mut out: W, text: &str) -> Result<(), Error> {\n        out.write_all(b\"\\x1b]0;\")?;\n        out.write_all(text.as_bytes())?;\n        out.write_all(b\"\\x1b\\\\\")?;\n        Ok(())\n    }\n\n    fn kitty_level<W: Write>(&self, mut out: W, level: usize) -> Result<(), Error> {"),
+               (E, "                out.write_all(b\"\\x1b]0;\")?;\n                // control characters (BEL, ESC, ...) would terminate or corrupt the OSC string\n" + _TITLE_LOOP + "                out.write_all(b\"\\x1b\\\\\")?;\n",
+                "                self.encode_title(out, &title)?;\n")]},
+    {"id": "C05-benign-cursor-to-destructured", "prop": "C05", "benign": True,
+     "edits": [(E, "            CursorTo(pos) => write!(\n                out,\n                \"\\x1b[{};{}H\",\n                pos.row.saturating_add(1),\n                pos.col.saturating_add(1)\n            )?,",
+                "            CursorTo(crate::terminal::Position { row, col }) => {\n                let line = row.saturating_add(1);\n                let column = col.saturating_add(1);\n                write!(out, \"\\x1b[{line};{column}H\")?\n            }")]},
+]
+
+MUTANTS += [
+    # a &mut to a Chunks field held in a local before the one allowed call
+    {"id": "C05-benign-chunks-push-hoisted-ref", "prop": "C05", "benign": True,
+     "edits": [(E, "        self.buffer.extend(chunk);\n        self.mark();", "        let buffer = &mut self.buffer;\n        buffer.extend(chunk);\n        self.mark();")]},
+    {"id": "C05-benign-chunks-clear-helper-order", "prop": "C05", "benign": True,
+     "edits": [(E, "        self.buffer.clear();\n        self.offsets.clear();", "        self.offsets.clear();\n        self.buffer.clear();")]},
+]
+
+MUTANTS += [
+    # SGR-PARAMS: an empty SGR parameter (= reset) under a reduced colour depth (seeded/C05-A)
+    {"id": "C05-gray-underline-empty-parameter", "prop": "C05", "expect": "SGR-PARAMS/TTYEncoder::encode/FaceModify/Gray-empty-parameter",
+     "edits": [(E, "            let index = match sgr_color_type {\n                SGRColorType::Foreground => index,\n                SGRColorType::Background => index + 10,\n                SGRColorType::Underline => return Ok(()),\n            };\n            write!(chunks, \"{}\", index)?;\n            chunks.mark();",
+                "            match sgr_color_type {\n                SGRColorType::Foreground => write!(chunks, \"{}\", index)?,\n                SGRColorType::Background => write!(chunks, \"{}\", index + 10)?,\n                SGRColorType::Underline => {}\n            }\n            chunks.mark();")]},
+    {"id": "C05-eightbit-selector-missing-mark", "prop": "C05", "expect": "SGR-PARAMS/TTYEncoder::encode/FaceModify/EightBit",
+     "edits": [(E, "            chunks.push(b\"5\");\n            write!(chunks, \"{}\", index)?;\n            chunks.mark();", "            chunks.push(b\"5\");\n            chunks.mark();\n            write!(chunks, \"{}\", index)?;\n            chunks.mark();")]},
+]
